@@ -14,8 +14,42 @@ package c14
 // scanners share buffered input is not part of what is compared.  Commands
 // (sys, pipe) are started in END, when the main loop has consumed the standard
 // input a child would otherwise inherit and compete for.
+//
+// fp() enumerates the arrays the interpreter fills (ARGV, ENVIRON, FIELDS)
+// completely, in the byte order of their keys (enum sorts the keys of a for-in
+// itself), and reads ARGV beyond ARGC without creating elements.  Directory
+// parts of ARGV values are stripped (the file operand of configuration c1 is
+// a path of the harness's work directory).  The kinds nr_* and sr_* do not call
+// rand() in fp(): a program whose first rand() comes after srand(n), or that
+// never calls rand().  The line printed with `print` follows the empty chunk
+// "pl".
+//
+// The one range pattern of the program is started only by the kinds rg_*; it
+// is closed by the record that names the run (t<tag>), except for rg_eof.
 const Program = `
 function emit(k, v) { printf "%s=%d:%s\n", k, length(v), v }
+function rnd() { return sprintf("%.12f", rand()) }
+
+function enum(a,   ks, n, i, j, t, k, s) {
+  n = 0
+  for (k in a) ks[++n] = k
+  for (i = 2; i <= n; i++) {
+    t = ks[i]
+    for (j = i - 1; j >= 1 && ks[j] > t; j--) ks[j + 1] = ks[j]
+    ks[j + 1] = t
+  }
+  s = ""
+  for (i = 1; i <= n; i++) { t = a[ks[i]]; sub(/^\/.*\//, "", t); s = s ks[i] "=" t ";" }
+  return s
+}
+function argvto(lo, hi,   i, t, s) {
+  s = ""
+  for (i = lo; i < hi; i++) {
+    if (i in ARGV) { t = ARGV[i]; sub(/^\/.*\//, "", t); s = s t "," }
+    else s = s "-,"
+  }
+  return s
+}
 
 function fp(   cv, m, k) {
   emit("g", g)
@@ -26,8 +60,17 @@ function fp(   cv, m, k) {
   m[1,2] = 1; for (k in m) emit("ss", k)
   emit("NR", NR); emit("FNR", FNR); emit("NF", NF); emit("line", $0)
   emit("FILENAME", FILENAME); emit("RSTART", RSTART); emit("RLENGTH", RLENGTH)
+  emit("RT", RT)
   emit("INPUTMODE", INPUTMODE); emit("OUTPUTMODE", OUTPUTMODE)
-  emit("rand", sprintf("%.9f", rand()))
+  emit("chars", length("\303\251"))
+  emit("ARGC", ARGC)
+  emit("argvc", argvto(0, ARGC))
+  emit("argv", enum(ARGV))
+  emit("argvx", argvto(ARGC, ARGC + 2))
+  emit("env", enum(ENVIRON))
+  emit("FIELDS", enum(FIELDS))
+  if (mode !~ /^(nr|sr)_/) emit("rand", rnd())
+  emit("pl", "")
   print 0.1234567, "q"
 }
 
@@ -48,8 +91,13 @@ BEGIN {
   if (mode == "setfs") { FS = ","; RS = ";"; OFS = "-"; ORS = "!\n"; CONVFMT = "%.2g"; OFMT = "%.3g"; SUBSEP = ":" }
   else if (mode == "csvhdr") INPUTMODE = "csv header"
   else if (mode == "setmodes") { INPUTMODE = "tsv"; OUTPUTMODE = "csv" }
-  else if (mode == "rand") { rand(); rand() }
-  else if (mode == "srand5") { srand(5); rand() }
+  else if (mode == "rand") { emit("rnd", rnd()); emit("rnd", rnd()) }
+  else if (mode == "srand5") { emit("sr", srand(5)); emit("rnd", rnd()) }
+  else if (mode == "sr_first") { emit("sr", srand(7)); emit("rnd", rnd()); emit("rnd", rnd()) }
+  else if (mode == "sr_only") { emit("sr", srand(9)) }
+  else if (mode == "sr_time") { emit("sr", srand()); emit("rnd", rnd()) }
+  else if (mode == "av_write") { ARGV[5] = "zz"; ENVIRON["token"] = "tk"; emit("argvw", enum(ARGV)); emit("envw", enum(ENVIRON)) }
+  else if (mode == "av_del") { delete ARGV[2]; delete ENVIRON["home"]; emit("argvw", enum(ARGV)); emit("envw", enum(ENVIRON)) }
   else if (mode == "midfile") { ln = ""; r = (getline ln < rf); emit("midret", r); emit("mid", ln) }
   else if (mode == "match") match("xxabc", /abc/)
   else if (mode == "p_io") {
@@ -80,6 +128,8 @@ BEGIN {
 
 { emit("rec", NR "/" NF "/" $1) }
 
+(mode ~ /^rg_/ && $1 ~ /^[0-9]/), ($1 ~ /^t/ && mode != "rg_eof") { emit("rg", $1) }
+
 mode == "setglob"  { g = "g" NR; arr["k"] = "a" NR }
 mode == "csvhdr"   { emit("x", @"x") }
 mode == "p_io"     { emit("x", @"x") }
@@ -91,6 +141,12 @@ mode == "errfunc"  { s = 0; for (i = 0; i < 5; i++) s += boom(i) }
 mode == "errforin" { delete t; t["a"]; t["bb"]; for (k in t) z = 1 / (NF - NF) }
 mode == "cancel"   { j = 0; while (1) spin(j++) }
 mode == "p_func"   { s += $1 }
+mode == "rg_exit"     && $1 ~ /^[0-9]/ { exit 3 }
+mode == "rg_err"      && $1 ~ /^[0-9]/ { z = 1 / (NF - NF) }
+mode == "rg_cancel"   && $1 ~ /^[0-9]/ { j = 0; while (1) spin(j++) }
+mode == "rg_next"     && $1 ~ /^[0-9]/ { emit("nx", $1); next }
+mode == "rg_nextfile" && $1 ~ /^[0-9]/ { nextfile }
+mode == "rg_getline"  && $1 ~ /^[0-9]/ { r = getline; emit("rgl", r ":" $1) }
 
 END {
   emit("endNR", NR)
